@@ -3391,6 +3391,7 @@ TREE1 = {"/": ("d", ["a", "b"]), "/a": ("d", ["b"]), "/a/b": ("f", "x"), "/b": (
 TREE2 = {"/": ("d", ["a", "b"]), "/a": ("d", ["a", "b"]), "/a/a": ("d", ["a"]), "/a/a/a": ("d", []), "/a/b": ("f", "x"), "/b": ("f", "yz")}
 # a tree with distinguishable modes and a link to a file (for copy / move)
 TREE3 = {"/": ("d", ["a", "b"]), "/a": ("d", ["a", "b"], 0o40750), "/a/a": ("l", "/b", "f", "../b"), "/a/b": ("f", "x", 0o100600), "/b": ("f", "yz")}
+TREE4 = dict(TREE3, **{"/": ("d", ["a", "b", "ab"]), "/ab": ("l", "/a/b", "f", "a/b")})  # + a link in the root that points into /a
 MEM_ALPHA = "/ab."
 
 # method -> (argument kinds, may it report failure and must then leave the tree untouched?)
@@ -3678,6 +3679,12 @@ fn fixture3() -> Memfs {
     v
 }
 
+fn fixture4() -> Memfs {
+    let v = fixture3();
+    v.symlink("/ab", "/a/b").unwrap();
+    v
+}
+
 // A plain reference tree filesystem written from the VirtualFileSystem documentation (std only, no rivia code).
 // Paths without '~' and '$' only.
 #[derive(Clone, PartialEq, Debug)]
@@ -3836,7 +3843,7 @@ def mem_replay_src(f):
             args.append("0o644")
     call = "v.%s(%s)" % (op, ", ".join(args))
     tree = f.get("tree") or TREE1
-    fixture_call = "fixture()" if tree is TREE1 else "fixture3()"
+    fixture_call = "fixture()" if tree is TREE1 else "fixture4()" if tree is TREE4 else "fixture3()"
     refcheck = ""
     if op.startswith(("chmod_b/", "chown_b/")):
         base, what, rec, fol = op.split("/")
@@ -3921,13 +3928,14 @@ _mk_mem_single("c03_mem_move", ["move_p"], 3, 2, "quick")
 _mk_mem_single("c03_mem_copy", ["copy"], 3, 2, "quick")
 
 
-def _mk_c09(name, ops, n2, tier, cwds=("/", "/a")):
+def _mk_c09(name, ops, n2, tier, cwds=("/", "/a"), tree=None):
     @job(name, ["C09", "C12"], tier, functions=[MEM_FUNCS[0] % ",".join(sorted(set(o.split("/")[0] for o in ops))) +
                                                                "; Copier::{chmod_all,chmod_dirs,chmod_files,follow,exec}, Memfs::_copy and the Entries traversal it drives (real MIR)"],
-         bounds="one call from the tree {/, /a (dir, 0750), /a/a -> /b (link), /a/b (file 'x', 0600), /b (file 'yz')} with cwd %s: every (src, dst) pair of texts of 1..=%d chars over "
-                "{'/','a','b','.'}; Copier options %s with any mode <= 0o777" % (" and ".join("'%s'" % c for c in cwds), n2, sorted(set(o.partition("/")[2] for o in ops if "/" in o)) or "-"))
+         bounds="one call from the tree {/, /a (dir, 0750), /a/a -> /b (link), /a/b (file 'x', 0600), /b (file 'yz')%s} with cwd %s: every (src, dst) pair of texts of 1..=%d chars over "
+                "{'/','a','b','.'}; Copier options %s with any mode <= 0o777" % (", /ab -> /a/b (link)" if tree is TREE4 else "", " and ".join("'%s'" % c for c in cwds), n2,
+                                                                              sorted(set(o.partition("/")[2] for o in ops if "/" in o)) or "-"))
     def f(ctx, prop):
-        return run_memfs_single(ctx, prop, ops, n2, n2, cwds=cwds, tag=name, tree=TREE3, pfx="C09")
+        return run_memfs_single(ctx, prop, ops, n2, n2, cwds=cwds, tag=name, tree=tree or TREE3, pfx="C09")
     return f
 
 
@@ -3955,6 +3963,7 @@ _mk_c09("c09_copy_all", ["copy_b/all/0"], 2, "quick")
 _mk_c09("c09_copy_dirs", ["copy_b/dirs/0"], 2, "quick")
 _mk_c09("c09_copy_files", ["copy_b/files/0"], 2, "quick")
 _mk_c09("c09_copy_follow", ["copy_b/none/1", "copy_b/all/1"], 2, "quick")
+_mk_c09("c09_copy_follow_rootlink", ["copy_b/none/1"], 2, "quick", cwds=("/",), tree=TREE4)
 _mk_c09("c09_move", ["move_p"], 2, "quick")
 _mk_c09("c09_copy3_plain", ["copy_b/none/0"], 3, "thorough", cwds=("/",))
 _mk_c09("c09_copy3_all_follow", ["copy_b/all/1"], 3, "thorough", cwds=("/",))
@@ -4901,6 +4910,14 @@ def ref_apply(ex, st, ref, op, paths, data, opts=None):
             return ("err", None)
         if is_root:
             return ("skip", None)
+        if node["kind"] == "l" and (opts or {}).get("follow"):
+            # "the file pointed to will be copied not the link": the call behaves as copy(target, dst)
+            tnode = ref_find(ex, st, ref, node["alt"])
+            if tnode is None or tnode["kind"] != "f":
+                return ("skip", None)  # link to a directory / dangling link given as the source: outside the reference
+            if ex.decide(st, TP.path_eq_text(ex, st, tnode["key"], dst)):
+                return ("skip", None)
+            return ref_apply(ex, st, ref, "copy", [tnode["key"], dst], data, opts)
         dn = ref_find(ex, st, ref, dst)
         final = list(dst)
         if dn is not None and dn["kind"] == "d":
@@ -4917,9 +4934,6 @@ def ref_apply(ex, st, ref, op, paths, data, opts=None):
         dmode = om if sel in ("all", "dirs") else None   # the chmod option selects directories
         fmode = om if sel in ("all", "files") else None  # ... regular files
         tbits = lambda m, bits: _bvb("BitOr", m, BV(32, False, bits))
-        if node["kind"] == "l":
-            if follow:
-                return ("skip", None)  # following a link given as the source itself: not determined by the documentation
         # destination directories are created as needed; a non-directory on the way is an error
         cur = TP.PathBufT([])
         made = []
